@@ -51,3 +51,81 @@ pub fn roundtrip(vm: &RootedThread, name: &str, src: &str) -> Result<(String, St
     let json = compile(vm, name, src)?;
     run_json(vm, name, &json)
 }
+
+
+/// Observes a program value: functions are applied to fixed arguments, everything else is rendered.
+fn observe(vm: &gluon::Thread, v: gluon::vm::Variants, typ: &str) -> String {
+    use gluon::vm::api::{FunctionRef, Getable};
+    let t: String = typ.split_whitespace().collect::<Vec<_>>().join(" ");
+    let r = std::panic::catch_unwind(std::panic::AssertUnwindSafe(|| match t.as_str() {
+        "Int -> Int" => {
+            let mut f: FunctionRef<fn(i64) -> i64> = Getable::from_value(vm, v.clone());
+            match f.call(2) { Ok(x) => format!("call(2) = {}", x), Err(e) => format!("call(2) failed: {}", crate::common::error_class(&e.to_string())) }
+        }
+        "Int -> Int -> Int" => {
+            let mut f: FunctionRef<fn(i64, i64) -> i64> = Getable::from_value(vm, v.clone());
+            match f.call(2, 3) { Ok(x) => format!("call(2, 3) = {}", x), Err(e) => format!("call(2, 3) failed: {}", crate::common::error_class(&e.to_string())) }
+        }
+        _ => crate::common::render(v.clone()),
+    }));
+    match r {
+        Ok(s) => s,
+        Err(p) => format!("panic: {}", crate::common::panic_message(&p)),
+    }
+}
+
+/// {"status": "ok" | "no-value" | "unserializable", "direct": obs, "loads": [{"vm": "same"|"fresh", "before_gc": obs, "after_gc": obs, "reserialized_equal": bool} | {"vm", "error"}]}
+pub fn value_roundtrip(vm: &RootedThread, src: &str, settings: &crate::common::Settings) -> serde_json::Value {
+    use gluon::vm::api::{Hole, OpaqueValue};
+    use gluon::vm::serialization::{DeSeed, SeSeed};
+    use serde_json::json;
+    use serde_state::ser::SerializeState;
+    let (value, typ) = match vm.run_expr::<OpaqueValue<RootedThread, Hole>>("prog", src) {
+        Ok(x) => x,
+        Err(e) => return json!({"status": "no-value", "msg": e.to_string().lines().next().unwrap_or("").to_string()}),
+    };
+    let typ = typ.to_string();
+    let to_json = |v: gluon::vm::Variants| -> Result<Vec<u8>, String> {
+        let mut buffer = Vec::new();
+        {
+            let mut ser = serde_json::Serializer::new(&mut buffer);
+            v.serialize_state(&mut ser, &SeSeed::new()).map_err(|e| e.to_string())?;
+        }
+        Ok(buffer)
+    };
+    let bytes = match to_json(value.get_variant()) {
+        Ok(b) => b,
+        Err(e) => return json!({"status": "unserializable", "msg": e}),
+    };
+    let direct = observe(vm, value.get_variant(), &typ);
+    let mut loads = Vec::new();
+    for which in ["same", "fresh"] {
+        let target = if which == "same" { vm.clone() } else { crate::common::new_vm(settings) };
+        let mut de = serde_json::Deserializer::from_slice(&bytes);
+        let loaded: Result<gluon::vm::thread::RootedValue<RootedThread>, _> = {
+            let mut ctx = target.current_context();
+            DeSeed::new(&target, &mut ctx).deserialize(&mut de)
+        };
+        let loaded = match loaded {
+            Ok(v) => v,
+            Err(e) => {
+                loads.push(json!({"vm": which, "error": e.to_string()}));
+                continue;
+            }
+        };
+        let before = observe(&target, loaded.get_variant(), &typ);
+        target.collect();
+        // reuse whatever the collection released
+        let filler: Vec<_> = (0..16).filter_map(|_| {
+            let mut de = serde_json::Deserializer::from_slice(&bytes);
+            let mut ctx = target.current_context();
+            let r: Result<gluon::vm::thread::RootedValue<RootedThread>, _> = DeSeed::new(&target, &mut ctx).deserialize(&mut de);
+            r.ok()
+        }).collect();
+        let after = observe(&target, loaded.get_variant(), &typ);
+        let again = to_json(loaded.get_variant()).map(|b| b == bytes).unwrap_or(false);
+        drop(filler);
+        loads.push(json!({"vm": which, "before_gc": before, "after_gc": after, "reserialized_equal": again}));
+    }
+    json!({"status": "ok", "type": typ, "direct": direct, "loads": loads})
+}
